@@ -130,16 +130,25 @@ def fragment_function(c):
     block = search(fn.body)
     if not block:
         raise RuntimeError("fragment not found")
-    mod = ast.Module(body=[_copy.deepcopy(s) for s in block], type_ignores=[])
+    # the block becomes the body of a function of the fragment's input locals (so that a `return` inside it is legal);
+    # falling off the end hands back the final locals
+    tail = ast.parse("return ('__fragment_locals__', locals())").body[0]
+    fdef = ast.FunctionDef(name="__fragment__", args=ast.arguments(posonlyargs=[], args=[ast.arg(arg=a) for a in c.params],
+                                                                     kwonlyargs=[], kw_defaults=[], defaults=[]),
+                           body=[_copy.deepcopy(s) for s in block] + [tail], decorator_list=[], type_params=[])
+    mod = ast.Module(body=[fdef], type_ignores=[])
     ast.fix_missing_locations(mod)
     code = compile(mod, f"<fragment of {c.target}>", "exec")
     modname = c.file[:-3].replace("/", ".")
     glob = dict(importlib.import_module(modname).__dict__)
+    exec(code, glob)
+    frag = glob["__fragment__"]
 
     def run(**locals_):
-        env = dict(locals_)
-        exec(code, glob, env)
-        return _NS(env)
+        r = frag(**locals_)
+        if isinstance(r, tuple) and len(r) == 2 and r[0] == "__fragment_locals__":
+            return _NS(r[1])
+        return r
 
     return run
 
